@@ -180,7 +180,13 @@ func init() {
 		NCases:      func(tier string) int { return len(c20Plan(tier)) },
 		Case:        c20Case,
 		CaseCPU:     600,
-		Exhaustive:  func(tier string) bool { return true },
+		ExhaustiveSubspaces: func(tier string) []string {
+			out := []string{"every entry/exit stop of every file-system syscall of the fault-free store, per scenario and document size"}
+			if tier == "thorough" {
+				out = append(out, "every torn prefix length of every write for documents <= 8 KB (64 KB: 4096 stratified prefixes)")
+			}
+			return out
+		},
 		MustCover:   []string{"trials-killed-inside-store", "torn-write-trials"},
 	})
 }
